@@ -60,7 +60,7 @@ if P and P.get('kind') == 'hist':
         if CFG == 'lalr-ctx-callbacks':
             return Lark(G_PLAIN, parser='lalr', lexer='contextual', lexer_callbacks={'NAME': _cb}, propagate_positions=True)
         if CFG == 'lalr-basic':
-            return Lark(G_PLAIN, parser='lalr', lexer='basic')
+            return Lark(G_PLAIN, parser='lalr', lexer='basic', maybe_placeholders=False)
         if CFG == 'earley-dynamic':
             return Lark(G_PLAIN, parser='earley', lexer='dynamic')
         if CFG == 'earley-basic':
@@ -74,6 +74,7 @@ if P and P.get('kind') == 'hist':
     NOPS = 8
     PIN = P.get('pin')
     MAXOPS = P.get('maxops', 3)
+    NPROBES = P.get('nprobes', len(PROBES))
 
     def _outcome(lk, text):
         try:
@@ -132,7 +133,7 @@ def _do_op(lk, op):
 def _hist_body(rec, ops, pi):
     n = hs.pick(len(ops), 0, MAXOPS)
     seq = [hs.sel(ops[k], NOPS) for k in range(n)]
-    pi = hs.sel(pi, len(PROBES))
+    pi = hs.sel(pi, NPROBES)
     for op in seq:
         _do_op(SHARED, op)
     got = _outcome(SHARED, PROBES[pi])
@@ -323,8 +324,8 @@ def plan(tier, seed):
             continue
         for pin in range(8):
             slices.append({'id': 'hist:%s:ops<=%d:first%d' % (cfg, 2 if quick else 3, pin), 'func': 'hist',
-                           'params': {'kind': 'hist', 'cfg': cfg, 'pin': pin, 'maxops': 2 if quick else 3}, 'timeout': 400 if quick else 3000,
-                           'twin': pin == 7 and cfg == 'lalr-basic', 'bound': {'ops': 2 if quick else 3, 'op_kinds': 8, 'probes': 10}})
+                           'params': {'kind': 'hist', 'cfg': cfg, 'pin': pin, 'maxops': 2 if quick else 3, 'nprobes': 5 if quick else 10}, 'timeout': 400 if quick else 3000,
+                           'twin': pin == 7 and cfg == 'lalr-basic', 'bound': {'ops': 2 if quick else 3, 'op_kinds': 8, 'probes': 5 if quick else 10}})
     # schedules: (configuration, pair of first calls, gap windows between consecutive context switches, in line steps)
     plans = [('basic-callbacks', [0, 1], [8, 40, 3]), ('basic-callbacks', [0, 2], [8, 40, 3]), ('basic-callbacks', [0, 1], [24, 24]),
              ('ctx-callbacks', [0, 1], [10, 30, 3]), ('ctx-callbacks', [1, 2], [24, 24]), ('earley-callbacks', [0, 1], [8, 40, 3])]
